@@ -279,6 +279,16 @@ fn describe(event: &TestEvent<'_>) -> Value {
             "elapsed_ns": elapsed.as_nanos() as u64, "stats": stats(run_stats)}),
     };
     v["t_ns"] = json!(event.elapsed.as_nanos() as u64);
+    #[cfg(unix)]
+    {
+        // CLOCK_MONOTONIC, the clock Python's time.monotonic() reads
+        let mut ts = libc::timespec {
+            tv_sec: 0,
+            tv_nsec: 0,
+        };
+        unsafe { libc::clock_gettime(libc::CLOCK_MONOTONIC, &mut ts) };
+        v["mono"] = json!(ts.tv_sec as f64 + ts.tv_nsec as f64 / 1e9);
+    }
     v
 }
 
